@@ -132,6 +132,10 @@ NAME_VARIANTS = [
     ("\u212bngstr\u00f6m", "new", "\u00c5ngstr\u00f6m"),
     ("a b", 'a"b', "a\\b"),
     ("old", "x" * 300, "x" * 299),
+    # the same odd names without the twin standing by (a twin can mask a lookup that finds the wrong one of the two)
+    ("old", "cafe\u0301", None),
+    ("\u212bngstr\u00f6m", "\u2126", None),
+    ("old", "New", None),
 ]
 
 
